@@ -15,7 +15,8 @@
 (*       @function f() { @return <x>f $d }   @mixin m { v: <x>m $p }       *)
 (*   a middle file "m": a sequence of load statements (targets: library    *)
 (*       files, built-ins) and one own member  $o: mo                      *)
-(*   the root "r": load statements (targets a, b, m, built-in math) and    *)
+(*   a wrapper file "w" whose whole content is `@forward "sass:math";`      *)
+(*   the root "r": load statements (targets a, b, m, w, built-in math) and  *)
 (*       ONE access whose result is the observable.                        *)
 (*                                                                         *)
 (* load statements                                                         *)
@@ -30,6 +31,8 @@
 (* access                                                                  *)
 (*   [k |-> "get", ns, kind |-> "var"|"fn"|"mix", pre, n]   ns "" = bare   *)
 (*   [k |-> "set", ns, kind |-> "var", pre, n]   `ns.$n: s1` then read     *)
+(*        (ns "" = a top-level `$n: s1`, which after `as *` addresses the   *)
+(*        module's variable)                                                *)
 (*                                                                         *)
 (* Named deviations (what the pinned tree does instead):                   *)
 (*   with_unchecked   `with` pre-defines the variables in the fresh module *)
@@ -39,6 +42,11 @@
 (*        (`_a` -> "-a", `a.scss` -> "a.scss"), so `a.` finds no module    *)
 (*   use_as_then_with_unparsed  `@use "u" as n with (..)` (the order Sass  *)
 (*        defines) is a parse error; only `with (..) as n` is accepted     *)
+(*   builtin_marker_lost_in_forward  a built-in variable reached through a *)
+(*        @forward with `as p-*` or `show` can be assigned to (the read-only *)
+(*        marker of the built-in scope is itself renamed / filtered away)    *)
+(*   star_builtin_assignable  after `@use .. as *` a top-level `$pi: v`     *)
+(*        silently shadows the built-in variable instead of being an error   *)
 (*   fwd_prefix_filter_swapped  with `as p-*`, functions are filtered by   *)
 (*        the variable list of show/hide and variables by the function list*)
 (***************************************************************************)
@@ -46,8 +54,11 @@ EXTENDS Integers, Sequences, FiniteSets, TLC
 
 LibFiles == {"a", "b"}
 Builtins == {"math"}
+WrapFiles == {"w"}          \* w.scss: `@forward "sass:math";`
 
-Mem(k, pre, n, v) == [k |-> k, pre |-> pre, n |-> n, v |-> v]
+(* ro = 1: the member is a variable of a built-in module (read-only wherever it is reached from) *)
+Mem(k, pre, n, v) == [k |-> k, pre |-> pre, n |-> n, v |-> v, ro |-> 0]
+IsRO(I, k, pre, n) == \E x \in I : x.k = k /\ x.pre = pre /\ x.n = n /\ x.ro = 1
 Has(I, k, pre, n) == \E x \in I : x.k = k /\ x.pre = pre /\ x.n = n
 Get(I, k, pre, n) == (CHOOSE x \in I : x.k = k /\ x.pre = pre /\ x.n = n).v
 Functional(I) == \A x, y \in I : (x.k = y.k /\ x.pre = y.pre /\ x.n = y.n) => x.v = y.v
@@ -72,7 +83,7 @@ Lib(x, cfg, Dev) ==
        IN Ok({Mem("var", 0, "d", <<dv>>), Mem("var", 0, "p", <<pv>>),
               Mem("fn", 0, "f", <<x \o "f", dv>>), Mem("mix", 0, "m", <<x \o "m", pv>>)} \cup extra)
 
-MathMembers == {Mem("var", 0, "pi", <<"pi">>)}
+MathMembers == {[k |-> "var", pre |-> 0, n |-> "pi", v |-> <<"pi">>, ro |-> 1]}
 Builtin(cfg) == IF cfg # <<>> THEN ErrM ELSE Ok(MathMembers)     \* built-in modules cannot be configured
 
 (* @forward filter: rename with the prefix, then show/hide on the renamed names *)
@@ -87,9 +98,18 @@ Visible(y, st, Dev) ==
     [] st.vis = "show" -> inl
     [] st.vis = "hide" -> ~inl
 Fwd(I, st, Dev) ==
-  {y \in {Mem(x.k, IF st.pre = 1 THEN 1 ELSE x.pre, x.n, x.v) : x \in I} : Visible(y, st, Dev)}
+  LET lost == "builtin_marker_lost_in_forward" \in Dev /\ (st.pre = 1 \/ st.vis = "show") IN
+  {y \in {[x EXCEPT !.pre = IF st.pre = 1 THEN 1 ELSE @, !.ro = IF lost THEN 0 ELSE @] : x \in I} : Visible(y, st, Dev)}
 
-Leaf(t, cfg, Dev) == IF t \in Builtins THEN Builtin(cfg) ELSE Lib(t, cfg, Dev)
+(* the wrapper file: nothing of its own, forwards sass:math unfiltered; it declares no !default variable *)
+Wrap(cfg, Dev) ==
+  IF cfg = <<>> THEN Ok(MathMembers)
+  ELSE IF CfgDup(cfg) THEN ErrM
+  ELSE IF "with_unchecked" \in Dev
+       THEN Ok({x \in MathMembers : ~(x.n \in CfgNames(cfg))} \cup {Mem("var", 0, n, <<CfgVal(cfg, n)>>) : n \in CfgNames(cfg)})
+  ELSE ErrM
+
+Leaf(t, cfg, Dev) == IF t \in Builtins THEN Builtin(cfg) ELSE IF t \in WrapFiles THEN Wrap(cfg, Dev) ELSE Lib(t, cfg, Dev)
 
 (* The middle file: own member $o plus what its @forward statements let through *)
 Mid(stmts, cfg, Dev) ==
@@ -97,7 +117,7 @@ Mid(stmts, cfg, Dev) ==
       fw   == UNION {Fwd(subs[i].mem, stmts[i], Dev) : i \in {j \in DOMAIN stmts : stmts[j].k = "fwd"}}
       own  == {Mem("var", 0, "o", <<"mo">>)}
   IN
-  IF \E i \in DOMAIN stmts : stmts[i].t \notin (LibFiles \cup Builtins) THEN UndefM
+  IF \E i \in DOMAIN stmts : stmts[i].t \notin (LibFiles \cup Builtins \cup WrapFiles) THEN UndefM
   ELSE IF \E i \in DOMAIN stmts : subs[i].st = "err" THEN ErrM
   ELSE IF ~Functional(fw \cup own) THEN UndefM                 \* conflicting forwards: not modelled
   ELSE IF cfg = <<>> THEN Ok(fw \cup own)
@@ -135,6 +155,25 @@ AllLoads(prog) ==
   IN rl \cup ml
 StOf(prog, l) == IF l[1] = "r" THEN prog.r[l[2]] ELSE prog.m[l[2]]
 
+(* an assignment is constrained by the property iff (under the ideal rules) it addresses a   *)
+(* variable of a built-in module - directly, through `as *`, or through any chain of         *)
+(* forwards - or addresses nothing at all (no such namespace / member: an error in any       *)
+(* reading).  Assignments to variables of user modules, new globals, and assignments in      *)
+(* programs that also carry a configuration are not decided here.                            *)
+SetConstrained(prog) ==
+  LET L == prog.r
+      a == prog.acc
+      res == [i \in DOMAIN L |-> Load(L[i], prog, {})]
+      uses == {i \in DOMAIN L : L[i].k = "use"}
+      nsd  == {i \in uses : L[i].as # "star"}
+      starmem == UNION {res[i].mem : i \in {j \in uses : L[j].as = "star"}}
+      hit == {i \in nsd : NsOf(L[i], {}) = a.ns}
+  IN
+  /\ \A l \in AllLoads(prog) : StOf(prog, l).cfg = <<>>
+  /\ IF a.ns = "" THEN IsRO(starmem, "var", a.pre, a.n)
+     ELSE \/ hit = {}
+          \/ LET I == res[CHOOSE i \in hit : TRUE].mem IN ~Has(I, "var", a.pre, a.n) \/ IsRO(I, "var", a.pre, a.n)
+
 (* what this specification does not decide (the property does not fix it) *)
 NotModelled(prog) ==
   LET L == prog.r
@@ -149,7 +188,7 @@ NotModelled(prog) ==
                           \/ StOf(prog, x).sp # "plain" \/ StOf(prog, y).sp # "plain")   \* a module loaded twice with configuration / two spellings
   \/ \E i \in DOMAIN L : Load(L[i], prog, {}).st = "undef"
   \/ \E i \in DOMAIN L : L[i].t \in Builtins /\ L[i].sp # "plain"
-  \/ (prog.acc.k = "set" /\ ~\E i \in nsd : NsOf(L[i], {}) = prog.acc.ns /\ L[i].t \in Builtins)  \* only assignment to built-ins is constrained
+  \/ (prog.acc.k = "set" /\ ~SetConstrained(prog))            \* only assignment to built-in variables is constrained
 
 ObserveM(prog, Dev) ==      \* the observable of a modelled program
   LET L == prog.r
@@ -161,8 +200,14 @@ ObserveM(prog, Dev) ==      \* the observable of a modelled program
       hit == {i \in nsd : NsOf(L[i], Dev) = a.ns}
   IN
   IF \E i \in DOMAIN L : UseUnparsed(L[i], Dev) \/ res[i].st # "ok" THEN ErrObs
-  ELSE IF a.k = "set" THEN
-       (IF hit = {} THEN ErrObs ELSE ErrObs)          \* built-in modules cannot be assigned to (NotModelled excludes the rest)
+  ELSE IF a.k = "set" THEN         \* `ns.$n: s1` (or top-level `$n: s1`), then the variable is read
+       (IF a.ns = "" THEN
+           (IF IsRO(starmem, "var", a.pre, a.n) /\ "star_builtin_assignable" \notin Dev THEN ErrObs ELSE Val(<<"s1">>))
+        ELSE IF hit = {} THEN ErrObs
+        ELSE LET I == res[CHOOSE i \in hit : TRUE].mem IN
+             IF ~Has(I, "var", a.pre, a.n) THEN ErrObs               \* no such member: nothing can be declared from outside
+             ELSE IF IsRO(I, "var", a.pre, a.n) THEN ErrObs          \* built-in modules cannot be assigned to
+             ELSE Val(<<"s1">>))
   ELSE IF a.ns = "" THEN
        (IF Has(starmem, a.kind, a.pre, a.n) THEN Val(Get(starmem, a.kind, a.pre, a.n))
         ELSE IF a.kind = "fn" THEN Val(<<CssCall(a.pre, a.n)>>)    \* an unknown function is a plain CSS function
@@ -173,7 +218,8 @@ ObserveM(prog, Dev) ==      \* the observable of a modelled program
 
 Observe(prog, Dev) == IF NotModelled(prog) THEN UndefObs ELSE ObserveM(prog, Dev)
 
-AllDevs == {"with_unchecked", "ns_raw_basename", "use_as_then_with_unparsed", "fwd_prefix_filter_swapped"}
+AllDevs == {"with_unchecked", "ns_raw_basename", "use_as_then_with_unparsed", "fwd_prefix_filter_swapped",
+            "builtin_marker_lost_in_forward", "star_builtin_assignable"}
 
 (* the deviations that can show on this program at all (syntactic) *)
 Relevant(prog) ==
@@ -182,6 +228,8 @@ Relevant(prog) ==
   \cup (IF \E st \in S : st.sp \in {"us", "ext"} THEN {"ns_raw_basename"} ELSE {})
   \cup (IF \E st \in S : UseUnparsed(st, AllDevs) THEN {"use_as_then_with_unparsed"} ELSE {})
   \cup (IF \E st \in S : st.k = "fwd" /\ st.pre = 1 /\ st.vis # "all" THEN {"fwd_prefix_filter_swapped"} ELSE {})
+  \cup (IF prog.acc.k = "set" /\ \E st \in S : st.k = "fwd" /\ (st.pre = 1 \/ st.vis = "show") THEN {"builtin_marker_lost_in_forward"} ELSE {})
+  \cup (IF prog.acc.k = "set" /\ prog.acc.ns = "" THEN {"star_builtin_assignable"} ELSE {})
 
 (* sets of deviations (they interact) whose prediction differs from the ideal one; *)
 (* only called on modelled programs                                                  *)
@@ -215,7 +263,7 @@ LawConfigOnlyDefault(prog, Dev) ==
       AL == AllLoads(prog) IN
   o.k = "val" =>
     /\ \A l \in AL : StOf(prog, l).t \in LibFiles => CfgNames(StOf(prog, l).cfg) \subseteq {"d"}
-    /\ \A l \in AL : StOf(prog, l).t \in Builtins => StOf(prog, l).cfg = <<>>
+    /\ \A l \in AL : StOf(prog, l).t \in (Builtins \cup WrapFiles) => StOf(prog, l).cfg = <<>>
     /\ (ValueTokens(prog, Dev) \cap ConfigTokens # {} => (prog.acc.kind \in {"var", "fn"} /\ prog.acc.n \in {"d", "f"}))
 
 (* show S and hide S are complementary, for every member that reaches the   *)
@@ -253,6 +301,6 @@ LawFilterExact(prog, Dev) ==
 
 (* built-in modules can be neither configured nor assigned to *)
 LawBuiltin(prog, Dev) ==
-  ((\E l \in AllLoads(prog) : StOf(prog, l).t \in Builtins /\ StOf(prog, l).cfg # <<>>) \/ prog.acc.k = "set")
+  ((\E l \in AllLoads(prog) : StOf(prog, l).t \in (Builtins \cup WrapFiles) /\ StOf(prog, l).cfg # <<>>) \/ prog.acc.k = "set")
     => Observe(prog, Dev).k \in {"err", "undef"}
 =============================================================================
